@@ -59,13 +59,16 @@ inductive Mask where
   | none        -- no mask: every field is written
   | withKey     -- a mask that names the key field
   | withoutKey  -- a mask that leaves the key field out
+  | empty       -- a mask that is not nil but has NO paths (`&fieldmaskpb.FieldMask{}`): on its own it writes nothing
   deriving DecidableEq
 
 def Mask.writesKey : Mask → Bool
   | .withoutKey => false
+  | .empty => false
   | _ => true
 
-/-- `resource.WithMoreUpdatePaths(key)`: a nil mask stays nil, any other mask now names the key. -/
+/-- `resource.WithMoreUpdatePaths(key)`: a nil mask stays nil (the guard is `request.UpdateMask == nil`), any other
+mask - the one without paths included - now names the key. -/
 def Mask.moreKey : Mask → Mask
   | .none => .none
   | _ => .withKey
